@@ -514,4 +514,411 @@ theorem replace_eq_go (σ : Env) (s : Bytes) (fuel : Nat) (h : s.length < fuel) 
         exact this.1
       simp [replaceGo, splitUnesc_none_of_absent s false hno, unescapeBraces_noop hb']
 
+/-! ### no value puts a line break into the output -/
+
+/-- free of CR and LF -/
+def cl (b : Bytes) : Prop := hasLineBreak b = false
+
+theorem cl_iff (b : Bytes) : cl b ↔ ∀ x ∈ b, x ≠ 10 ∧ x ≠ 13 := by
+  unfold cl hasLineBreak
+  rw [List.any_eq_false]
+  constructor
+  · intro h x hx
+    have := h x hx
+    simpa using this
+  · intro h x hx
+    have := h x hx
+    simpa using this
+
+theorem cl_nil : cl [] := by simp [cl, hasLineBreak]
+
+theorem cl_append {a b : Bytes} (ha : cl a) (hb : cl b) : cl (a ++ b) := by
+  rw [cl_iff] at *
+  intro x hx
+  rcases List.mem_append.mp hx with h | h
+  · exact ha x h
+  · exact hb x h
+
+theorem cl_of_subset {a b : Bytes} (h : ∀ x ∈ a, x ∈ b) (hb : cl b) : cl a := by
+  rw [cl_iff] at *
+  exact fun x hx => hb x (h x hx)
+
+theorem cl_take {b : Bytes} (n : Nat) (h : cl b) : cl (b.take n) :=
+  cl_of_subset (fun _ hx => List.mem_of_mem_take hx) h
+
+theorem cl_drop {b : Bytes} (n : Nat) (h : cl b) : cl (b.drop n) :=
+  cl_of_subset (fun _ hx => List.mem_of_mem_drop hx) h
+
+theorem cl_escNL (s : Bytes) : cl (escNL s) := by
+  rw [cl_iff]
+  intro x hx
+  unfold escNL at hx
+  rw [List.mem_flatMap] at hx
+  obtain ⟨b, _, hb⟩ := hx
+  by_cases h13 : b = 13
+  · simp [h13] at hb
+    rcases hb with rfl | rfl <;> decide
+  · by_cases h10 : b = 10
+    · simp [h10] at hb
+      rcases hb with rfl | rfl <;> decide
+    · simp [h13, h10] at hb
+      subst hb
+      exact ⟨h10, h13⟩
+
+theorem cl_slice {s t : Bytes} {lo hi : Nat} (h : slice? s lo hi = some t) (hs : cl s) : cl t := by
+  unfold slice? at h
+  split at h
+  · cases h
+    exact cl_drop _ (cl_take _ hs)
+  · cases h
+
+theorem cl_keyName {key name : Bytes} (h : keyName key = some name) (hk : cl key) : cl name := by
+  unfold keyName at h
+  split at h
+  · cases h
+  · exact cl_slice h hk
+
+theorem cl_joinComma : ∀ (vs : List Bytes), (∀ v ∈ vs, cl v) → cl (joinComma vs)
+  | [], _ => cl_nil
+  | [v], h => h v (by simp)
+  | v :: w :: rest, h => by
+    unfold joinComma
+    apply cl_append (h v (by simp))
+    have hr := cl_joinComma (w :: rest) (fun x hx => h x (by simp [hx]))
+    rw [cl_iff] at hr ⊢
+    intro x hx
+    rcases List.mem_cons.mp hx with rfl | hx
+    · decide
+    · exact hr x hx
+
+theorem hexUp_ne (n : Nat) (hn : n < 16) : hexUp n ≠ 10 ∧ hexUp n ≠ 13 := by
+  have : ∀ k : Fin 16, hexUp k.val ≠ 10 ∧ hexUp k.val ≠ 13 := by decide
+  exact this ⟨n, hn⟩
+
+theorem cl_queryEscape (s : Bytes) : cl (queryEscape s) := by
+  rw [cl_iff]
+  intro x hx
+  unfold queryEscape at hx
+  rw [List.mem_flatMap] at hx
+  obtain ⟨b, _, hb⟩ := hx
+  by_cases hu : unreserved b = true
+  · simp [hu] at hb
+    subst hb
+    constructor
+    · intro h; subst h; revert hu; decide
+    · intro h; subst h; revert hu; decide
+  · by_cases h32 : b = 32
+    · have hu32 : unreserved 32 = false := by decide
+      simp [h32, hu32] at hb
+      subst hb
+      decide
+    · have hb256 : b.toNat < 256 := UInt8.toNat_lt b
+      simp [hu, h32] at hb
+      rcases hb with rfl | rfl | rfl
+      · decide
+      · exact hexUp_ne _ (by omega)
+      · exact hexUp_ne _ (by omega)
+
+theorem cl_natBytes (n : Nat) : cl (natBytes n) := by
+  rw [cl_iff]
+  intro x hx
+  unfold natBytes at hx
+  rw [List.mem_map] at hx
+  obtain ⟨c, hc, rfl⟩ := hx
+  have hd := Nat.isDigit_of_mem_toDigits (by decide) (by decide) hc
+  simp only [Char.isDigit, Bool.and_eq_true, decide_eq_true_eq] at hd
+  have h1 : 48 ≤ c.toNat := UInt32.le_iff_toNat_le.mp hd.1
+  have h2 : c.toNat ≤ 57 := UInt32.le_iff_toNat_le.mp hd.2
+  have : ∀ k : Fin 58, 48 ≤ k.val → UInt8.ofNat k.val ≠ 10 ∧ UInt8.ofNat k.val ≠ 13 := by decide
+  exact this ⟨c.toNat, by omega⟩ h1
+
+theorem cl_splitDots : ∀ (s : Bytes), cl s → ∀ l ∈ splitDots s, cl l := by
+  intro s
+  induction s with
+  | nil => intro _ l hl; simp [splitDots] at hl; subst hl; exact cl_nil
+  | cons x rest ih =>
+    intro hs l hl
+    have hx : x ≠ 10 ∧ x ≠ 13 := (cl_iff _).mp hs x (by simp)
+    have hrest : cl rest := cl_of_subset (fun y hy => by simp [hy]) hs
+    unfold splitDots at hl
+    cases hsd : splitDots rest with
+    | nil => simp [hsd] at hl; subst hl; exact cl_nil
+    | cons l0 ls =>
+      simp only [hsd] at hl
+      have ih' := ih hrest
+      rw [hsd] at ih'
+      by_cases h46 : x = 46
+      · simp only [h46, if_true, List.mem_cons] at hl
+        rcases hl with rfl | rfl | hl
+        · exact cl_nil
+        · exact ih' _ (by simp)
+        · exact ih' _ (by simp [hl])
+      · simp only [h46, if_false, List.mem_cons] at hl
+        rcases hl with rfl | hl
+        · have := ih' l0 (by simp)
+          rw [cl_iff] at this ⊢
+          intro y hy
+          rcases List.mem_cons.mp hy with rfl | hy
+          · exact hx
+          · exact this y hy
+        · exact ih' _ (by simp [hl])
+
+theorem assoc_mem {l : List (Bytes × Bytes)} {k v : Bytes} (h : assoc l k = some v) : ∃ p ∈ l, p.2 = v := by
+  unfold assoc at h
+  cases hf : l.find? (fun p => p.1 == k) with
+  | none => simp [hf] at h
+  | some p =>
+    simp [hf] at h
+    exact ⟨p, List.mem_of_find?_eq_some hf, h⟩
+
+theorem cl_assoc {l : List (Bytes × Bytes)} {k v : Bytes} (h : assoc l k = some v)
+    (hl : (l.any fun p => hasLineBreak p.2) = false) : cl v := by
+  obtain ⟨p, hp, rfl⟩ := assoc_mem h
+  exact (List.any_eq_false.mp hl) p hp |> fun h => by simpa [cl] using h
+
+theorem cl_headerLookup {h : List (Bytes × List Bytes)} {want v : Bytes} (hv : headerLookup h want = some v)
+    (hh : hdrHasLineBreak h = false) : cl v := by
+  unfold headerLookup at hv
+  cases hf : h.find? (fun p => eqFold p.1 want) with
+  | none => simp [hf] at hv
+  | some p =>
+    simp [hf] at hv
+    subst hv
+    have hp := List.mem_of_find?_eq_some hf
+    have := (List.any_eq_false.mp hh) p hp
+    apply cl_joinComma
+    intro w hw
+    have := (List.any_eq_false.mp (by simpa using this)) w hw
+    simpa [cl] using this
+
+/-- a lookup stage that, if it ends the lookup, ends it with a CR/LF-free value -/
+def R.clVal : R → Prop
+  | .val v => cl v
+  | _ => True
+
+theorem andThen_clVal {a : R} {f : Unit → R} (ha : a.clVal) (hf : (f ()).clVal) : (a.andThen f).clVal := by
+  cases a with
+  | panic => simp [R.andThen, R.clVal]
+  | val v => simpa [R.andThen, R.clVal] using ha
+  | pass => simpa [R.andThen] using hf
+
+theorem ofOpt_clVal (o : Option Bytes) (h : ∀ v, o = some v → cl v) : (ofOpt o).clVal := by
+  cases o with
+  | none => simp [ofOpt, R.clVal]
+  | some v => simpa [ofOpt, R.clVal] using h v rfl
+
+theorem sigil_clVal (key : Bytes) (k1 c : UInt8) (f : Bytes → R) (hk : cl key)
+    (hf : ∀ n, cl n → (f n).clVal) : (sigil key k1 c f).clVal := by
+  unfold sigil
+  split
+  · cases hn : keyName key with
+    | none => simp [R.clVal]
+    | some name => exact hf name (cl_keyName hn hk)
+  · simp [R.clVal]
+
+/-- every text that net/http delivers undecoded, or that the operator controls, is free of CR/LF -/
+structure EnvClean (σ : Env) : Prop where
+  empty : cl σ.empty
+  reqHdr : hdrHasLineBreak σ.reqHdr = false
+  respHdr : hdrHasLineBreak (σ.respHdr.getD []) = false
+  cookies : (σ.cookies.any fun p => hasLineBreak p.2) = false
+  osEnv : (σ.osEnv.any fun p => hasLineBreak p.2) = false
+  method : cl σ.method
+  host : cl σ.host
+  proto : cl σ.proto
+  remoteAddr : cl σ.remoteAddr
+  hostSplit : pairHasLineBreak σ.hostSplit = false
+  remoteSplit : pairHasLineBreak σ.remoteSplit = false
+  origRawQuery : cl σ.origRawQuery
+  origURI : cl σ.origURI
+  curURI : cl σ.curURI
+  requestID : cl σ.requestID
+  ext : (extKeys.any fun k => hasLineBreak (σ.ext (asc k))) = false
+
+theorem envClean_of {σ : Env} (h : envHasLineBreak σ = false) : EnvClean σ := by
+  simp only [envHasLineBreak, Bool.or_eq_false_iff, and_assoc] at h
+  obtain ⟨h1, h2, h3, h4, h5, h6, h7, h8, h9, h10, h11, h12, h13, h14, h15, h16⟩ := h
+  exact ⟨h1, h2, h3, h4, h5, h6, h7, h8, h9, h10, h11, h12, h13, h14, h15, h16⟩
+
+theorem cl_pair_fst {o : Option (Bytes × Bytes)} {a b : Bytes} (h : pairHasLineBreak o = false) (ho : o = some (a, b)) :
+    cl a ∧ cl b := by
+  subst ho
+  simpa [pairHasLineBreak, cl] using h
+
+theorem table_clean (σ : Env) (h : EnvClean σ) : ∀ e ∈ table, cl (e.2 σ) := by
+  simp only [table, List.forall_mem_cons, List.not_mem_nil, false_imp_iff, implies_true, and_true]
+  refine ⟨h.method, ?_, h.host, ?_, cl_escNL _, cl_queryEscape _, h.requestID, cl_escNL _, cl_queryEscape _,
+    h.origRawQuery, cl_queryEscape _, cl_escNL _, h.proto, ?_, ?_, h.origURI, cl_queryEscape _, h.curURI,
+    cl_queryEscape _, cl_escNL _, cl_escNL _, ?_, ?_, ?_, ?_⟩
+  · cases σ.tls <;> simp [cl] <;> decide
+  · cases hs : σ.hostSplit with
+    | none => exact h.host
+    | some p => obtain ⟨a, b⟩ := p; exact (cl_pair_fst h.hostSplit hs).1
+  · cases hs : σ.remoteSplit with
+    | none => exact h.remoteAddr
+    | some p => obtain ⟨a, b⟩ := p; exact (cl_pair_fst h.remoteSplit hs).1
+  · cases hs : σ.remoteSplit with
+    | none => exact h.empty
+    | some p => obtain ⟨a, b⟩ := p; exact (cl_pair_fst h.remoteSplit hs).2
+  · cases hm : σ.mitm with
+    | none => simp [cl]; decide
+    | some b => cases b <;> simp [cl] <;> decide
+  · cases hr : σ.recorder with
+    | none => exact h.empty
+    | some p => obtain ⟨a, b⟩ := p; exact cl_natBytes _
+  · cases hr : σ.recorder with
+    | none => exact h.empty
+    | some p => obtain ⟨a, b⟩ := p; exact cl_natBytes _
+  · cases hs : σ.hostSplit with
+    | none => cases σ.tls <;> simp [cl] <;> decide
+    | some p => obtain ⟨a, b⟩ := p; exact (cl_pair_fst h.hostSplit hs).2
+
+theorem ext_clean (σ : Env) (h : EnvClean σ) (l : List String) (hl : ∀ k ∈ l, k ∈ extKeys) (key : Bytes)
+    (hk : (l.any fun k => asc k == key) = true) : cl (σ.ext key) := by
+  rw [List.any_eq_true] at hk
+  obtain ⟨k, hkm, hke⟩ := hk
+  have : asc k = key := by simpa using hke
+  subst this
+  have := (List.any_eq_false.mp h.ext) k (hl k hkm)
+  simpa [cl] using this
+
+theorem tableLookup_clean (σ : Env) (h : EnvClean σ) (key v : Bytes) (hv : tableLookup σ key = some v) : cl v := by
+  unfold tableLookup at hv
+  cases hf : table.find? (fun e => asc e.1 == key) with
+  | some e =>
+    simp only [hf] at hv
+    cases hv
+    exact table_clean σ h e (List.mem_of_find?_eq_some hf)
+  | none =>
+    simp only [hf] at hv
+    by_cases h1 : (opaqueKeys.any fun k => asc k == key) = true
+    · simp only [h1, if_true] at hv
+      cases hv
+      exact ext_clean σ h opaqueKeys (fun k hk => by simp [extKeys, hk]) key h1
+    · simp only [h1, if_false] at hv
+      by_cases h2 : (latencyKeys.any fun k => asc k == key) = true
+      · simp only [h2, if_true] at hv
+        cases hv
+        split
+        · exact ext_clean σ h latencyKeys (fun k hk => by simp [extKeys, hk]) key h2
+        · exact h.empty
+      · simp only [h2, if_false] at hv
+        by_cases h3 : (tlsKeys.any fun k => asc k == key) = true
+        · simp only [h3, if_true] at hv
+          cases hv
+          split
+          · exact ext_clean σ h tlsKeys (fun k hk => by simp [extKeys, hk]) key h3
+          · exact h.empty
+        · simp only [h3, if_false] at hv
+          by_cases h4 : (certKeys.any fun k => asc k == key) = true
+          · simp only [h4, if_true] at hv
+            cases hv
+            split
+            · exact ext_clean σ h certKeys (fun k hk => by simp [extKeys, hk]) key h4
+            · exact h.empty
+          · simp [h4] at hv
+
+theorem labelLookup_clVal (σ : Env) (h : EnvClean σ) (key : Bytes) : (labelLookup σ key).clVal := by
+  unfold labelLookup
+  split
+  · split
+    · simp [R.clVal]
+    · split
+      · exact h.empty
+      · split
+        · exact h.empty
+        · simp only
+          split
+          · exact h.empty
+          · split
+            · rename_i l hl
+              exact cl_splitDots σ.host h.host l (List.mem_of_getElem? hl)
+            · simp [R.clVal]
+  · simp [R.clVal]
+
+/-- `getSubstitution` never returns a value with a CR or LF, when the key has none and the
+undecoded / operator-controlled parts of the environment have none: the decoded parts (path, query
+arguments, fragment, custom values such as the basic auth user) may contain anything. -/
+theorem substR_clVal (σ : Env) (h : EnvClean σ) (key : Bytes) (hk : cl key) : (substR σ key).clVal := by
+  unfold substR
+  apply andThen_clVal
+  · apply ofOpt_clVal
+    intro v hv
+    cases ha : assoc σ.custom key with
+    | none => simp [ha] at hv
+    | some w => simp [ha] at hv; subst hv; exact cl_escNL _
+  cases hk1 : key[1]? with
+  | none => simp [R.clVal]
+  | some k1 =>
+    simp only
+    apply andThen_clVal
+    · exact sigil_clVal key k1 62 _ hk (fun n _ => ofOpt_clVal _ (fun v hv => cl_headerLookup hv h.reqHdr))
+    apply andThen_clVal
+    · cases hr : σ.respHdr with
+      | none => simp [R.clVal]
+      | some hh =>
+        have hrh : hdrHasLineBreak hh = false := by have := h.respHdr; simpa [hr] using this
+        exact sigil_clVal key k1 60 _ hk (fun n _ => ofOpt_clVal _ (fun v hv => cl_headerLookup hv hrh))
+    apply andThen_clVal
+    · apply sigil_clVal key k1 126 _ hk
+      intro n _
+      split
+      · simp [R.clVal]
+      · exact ofOpt_clVal _ (fun v hv => cl_assoc hv h.cookies)
+    apply andThen_clVal
+    · exact sigil_clVal key k1 63 _ hk (fun n _ => cl_escNL _)
+    apply andThen_clVal
+    · apply sigil_clVal key k1 36 _ hk
+      intro n hn
+      have henv : ∀ nm, cl (envLookup σ nm) := by
+        intro nm
+        unfold envLookup
+        cases ha : assoc σ.osEnv nm with
+        | none => exact cl_nil
+        | some w => exact cl_assoc ha h.osEnv
+      cases indexOf 61 n with
+      | none => exact henv _
+      | some i =>
+        simp only
+        split
+        · exact henv _
+        · exact cl_drop _ hn
+    apply andThen_clVal
+    · exact ofOpt_clVal _ (fun v hv => tableLookup_clean σ h key v hv)
+    apply andThen_clVal
+    · exact labelLookup_clVal σ h key
+    exact h.empty
+
+theorem subst_clean (σ : Env) (h : EnvClean σ) (key v : Bytes) (hk : cl key) (hv : subst σ key = some v) : cl v := by
+  have := substR_clVal σ h key hk
+  unfold subst at hv
+  cases hs : substR σ key with
+  | val w => simp [hs] at hv; subst hv; simpa [hs, R.clVal] using this
+  | panic => simp [hs] at hv
+  | pass => simp [hs] at hv
+
+theorem render_clean (σ : Env) (h : EnvClean σ) : ∀ (segs : List Seg) (out : Bytes),
+    (segs.any fun s => match s with | .lit b => hasLineBreak b | .ph k => hasLineBreak k) = false →
+    render σ segs = .ok out → cl out := by
+  intro segs
+  induction segs with
+  | nil => intro out _ hr; simp [render] at hr; subst hr; exact cl_nil
+  | cons seg rest ih =>
+    intro out hl hr
+    simp only [List.any_cons, Bool.or_eq_false_iff] at hl
+    unfold render at hr
+    cases hv : segValue σ seg with
+    | none => simp [hv] at hr
+    | some v =>
+      simp only [hv] at hr
+      cases hrr : render σ rest with
+      | error e => simp [hrr] at hr
+      | ok o =>
+        simp only [hrr] at hr
+        cases hr
+        apply cl_append _ (ih o hl.2 hrr)
+        cases seg with
+        | lit b => simp [segValue] at hv; subst hv; simpa [cl] using hl.1
+        | ph k => exact subst_clean σ h k v (by simpa [cl] using hl.1) hv
+
 end Casket.Replacer
